@@ -1288,3 +1288,23 @@ M("m4-enum-slice-wrong-width", "C08", "fire M4", "src/compile.rs",
                         }
                     }
                     _ => unreachable!(),""", "enum variant fields sliced with the tag width")
+
+# ---------------------------------------------------------------- C13 J6
+M("j6-b-not-reversed", "C13", "fire J6", "src/compile.rs",
+  """    for i in (0..num_elems_b).rev() {""",
+  """    for i in 0..num_elems_b {""", "rows of b pushed ascending: the input of the merger is not bitonic")
+M("j6-tag-removed-at-zero", "C13", "fire J6", "src/compile.rs",
+  """        let tag_b = b.remove(join_ty_size);""",
+  """        let tag_b = b.remove(0);""", "tag of the second row taken from the first key bit")
+M("j6-merger-key-only", "C13", "fire J6", "src/compile.rs",
+  """    circuit.push_bitonic_merger(join_ty_size + 1, true, &mut bitonic);""",
+  """    circuit.push_bitonic_merger(join_ty_size, true, &mut bitonic);""", "tag bit not part of the merge order")
+M("j6-truncate-a-width-for-b", "C13", "fire J6", "src/compile.rs",
+  """        b.truncate(elem_bits_b);""",
+  """        b.truncate(elem_bits_a);""", "rows of b cut to the element width of a")
+M("j6-quiet-rev-collect", "C13", "quiet", "src/compile.rs",
+  """        // Here the tag bit is 1
+        v.insert(join_ty_size, 1);""",
+  """        // Here the tag bit is 1
+        let tag_pos = join_ty_size;
+        v.insert(tag_pos, 1);""", "behaviour-preserving: tag position through a local")
